@@ -36,3 +36,14 @@ From Moss Require Sync2 Sync2Run.
 Extraction "sync2model.ml" Sync2Run.apply_label Sync2Run.start Sync2Run.cfg_sync Sync2Run.quiescent
   Sync2Run.obs_top Sync2Run.obs_blocked Sync2Run.obs_ok Sync2Run.obs_closedret Sync2Run.obs_syncdone
   Sync2Run.obs_syncret Sync2Run.obs_closed Sync2Run.obs_mgate Sync2Run.obs_asleep.
+
+(* The directory-level crash discipline (CrashFiles.v), for crashrun: a file of its own
+   (files, hi, reopen ... would clash with other models' names). *)
+From Moss Require CrashFiles.
+Extraction "crashfiles.ml" CrashFiles.files_ok.
+
+(* The in-memory batch buffer (BatchBuf.v), for batchbufrun: a file of its own (step, run, read ...). *)
+From Moss Require BatchBuf.
+Extraction "bbmodel.ml" BatchBuf.step BatchBuf.new_batch BatchBuf.entries BatchBuf.sort_batch
+  BatchBuf.batch_find_start BatchBuf.batch_get BatchBuf.h_sub BatchBuf.h_len BatchBuf.h_cap BatchBuf.h_nil
+  BatchBuf.res_code BatchBuf.alloc_mutate BatchBuf.mutate_ex BatchBuf.read BatchBuf.batch_len.
